@@ -548,6 +548,18 @@ def run(chk):
                 viol(c, "fails-without-message:" + key_in, "ovnisort fails (exit %s) without saying anything" % res["rc"], {"case": rep})
             else:
                 chk.count("lookback:failed-with-message" + (":mentions -n" if "look back" in res["err"] else ""))
+        else:
+            # outside the precondition: nothing is demanded; record what the tool does (model == impl is still checked above)
+            why = first.split(":", 1)[1] if ":" in first else "later-stream"
+            if res["rc"] == 0:
+                uns = False
+                for out in res["out"]:
+                    ok_o, evo, _ = trace.parse_obs(out)
+                    cl = [e["clock"] for e in evo]
+                    uns = uns or any(cl[q] > cl[q + 1] for q in range(len(cl) - 1))
+                chk.count("outside:%s:exit0-%s" % (why, "leaves-unsorted-stream" if uns else "sorted-stream"))
+            else:
+                chk.count("outside:%s:fails" % why)
         if len(chk.samples) < 4 and all_pre and res["rc"] == 0 and res["out"] != inputs:
             ok_o, evo, _ = trace.parse_obs(res["out"][0])
             chk.sample({"n": c["n"], "input": [(e["mcv"], e["clock"], len(enc(e))) for e in c["streams"][0]["events"]][:40],
